@@ -61,6 +61,7 @@ type c15 struct {
 }
 
 func runC15(c *an.Ctx) {
+	c15absoluteNotJoined(c)
 	p := c.P
 	r := &c15{c: c, p: p, info: p.Jet.TypesInfo, params: map[*types.Var]taint{}, scope: map[*an.Fn]bool{},
 		fieldClean: map[string]bool{"Template.Name": true, "NodeBase.TemplatePath": true}}
